@@ -1,6 +1,7 @@
 package props
 
 import (
+	"bufio"
 	"bytes"
 	"compress/gzip"
 	"compress/zlib"
@@ -9,6 +10,7 @@ import (
 	"errors"
 	"fmt"
 	"io"
+	"net"
 	"net/http"
 	"runtime"
 	"sort"
@@ -293,6 +295,13 @@ func (s *stormRec) Write(p []byte) (int, error) {
 	return s.Rec.Write(p)
 }
 
+// Hijack makes the recording writer an http.Hijacker (websocket-style handlers).
+func (s *stormRec) Hijack() (net.Conn, *bufio.ReadWriter, error) {
+	a, b := net.Pipe()
+	b.Close()
+	return a, bufio.NewReadWriter(bufio.NewReader(a), bufio.NewWriter(a)), nil
+}
+
 type hdKey struct{}
 
 type echoDoc struct {
@@ -344,6 +353,11 @@ func frameworkStorm(ctx *core.Ctx, ci int, provName string, inflight int, entry 
 		resp.Write([]byte(strings.Repeat(id+";", 50)))
 		if mode == "panic" && strings.HasSuffix(id, "3") {
 			panic("storm-panic-" + id)
+		}
+		if mode == "hijack" && strings.HasSuffix(id, "2") {
+			if conn, _, err := resp.Hijack(); err == nil {
+				conn.Close()
+			}
 		}
 		atomic.StoreInt32(req.Request.Context().Value(hdKey{}).(*int32), 1)
 	}))
@@ -486,6 +500,123 @@ func frameworkStorm(ctx *core.Ctx, ci int, provName string, inflight int, entry 
 	ctx.Sig(fmt.Sprintf("framework|%s|n=%d|%s|%s", provName, inflight, entry, mode))
 }
 
+// directChurn: acquires overlap releases (no barrier): g goroutines x n iterations of acquire/use/release.
+func directChurn(ctx *core.Ctx, ci int, provName string, g, n int) {
+	l := mon.NewLedger(c13Provider(provName))
+	l.KeepHist, l.Trip = true, true
+	var bad int32
+	var first atomic.Value
+	var wg sync.WaitGroup
+	for i := 0; i < g; i++ {
+		wg.Add(1)
+		go func(i int) {
+			defer wg.Done()
+			var buf bytes.Buffer
+			for k := 0; k < n; k++ {
+				buf.Reset()
+				payload := fmt.Sprintf("churn-%d-%d-%d-%s", ci, i, k, strings.Repeat("y", (i+k)%17))
+				coding := "gzip"
+				if (i+k)%2 == 0 {
+					w := l.AcquireGzipWriter()
+					w.Reset(&buf)
+					w.Write([]byte(payload))
+					w.Close()
+					l.ReleaseGzipWriter(w)
+				} else {
+					coding = "deflate"
+					w := l.AcquireZlibWriter()
+					w.Reset(&buf)
+					w.Write([]byte(payload))
+					w.Close()
+					l.ReleaseZlibWriter(w)
+				}
+				got, err := decodeComplete(coding, buf.Bytes())
+				if err != nil || string(got) != payload {
+					atomic.AddInt32(&bad, 1)
+					first.Store(fmt.Sprintf("holder %d iteration %d (%s): stream decodes to %.40q (%v), it wrote %.40q", i, k, coding, got, err, payload))
+				}
+			}
+		}(i)
+	}
+	done := make(chan struct{})
+	go func() { wg.Wait(); close(done) }()
+	doc := map[string]interface{}{"provider": provName, "goroutines": g, "iterations": n, "kind": "direct-churn"}
+	if blocked, timedOut := mon.WaitQuiescent(done, 20*time.Second); timedOut {
+		if len(blocked) > 0 {
+			doc["blocked"] = blocked
+			ctx.Violation(ci, "c13:release-blocks:churn:"+provName, fmt.Sprintf("%d goroutine(s) parked forever in %s", len(blocked), blocked[0].Frame), doc)
+		} else {
+			ctx.Inconclusive("direct churn did not finish and no blocked go-restful frame was found")
+		}
+		return
+	}
+	ctx.Eval(g * n)
+	ctx.Count("direct_churn_cycles", g*n)
+	if atomic.LoadInt32(&bad) > 0 {
+		ctx.Violation(ci, "c13:payload-mixed:churn:"+provName, fmt.Sprintf("%d stream(s) corrupted; first: %v", bad, first.Load()), doc)
+	}
+	checkLedger(ctx, ci, l, "churn:"+provName, doc)
+	ctx.Sig(fmt.Sprintf("direct-churn|%s|g=%d", provName, g))
+}
+
+// frameworkChurn: g goroutines issue n encoded requests each, back to back, through the entry point.
+func frameworkChurn(ctx *core.Ctx, ci int, provName string, g, n int, entry string) {
+	l := mon.NewLedger(c13Provider(provName))
+	l.KeepHist, l.Trip = true, true
+	restful.SetCompressorProvider(l)
+	c := restful.NewContainer()
+	c.EnableContentEncoding(true)
+	ws := new(restful.WebService).Path("/c")
+	ws.Route(ws.GET("/get").To(func(req *restful.Request, resp *restful.Response) {
+		id := req.Request.Header.Get("X-Id")
+		resp.Write([]byte("churn-payload-" + id + "-"))
+		runtime.Gosched()
+		resp.Write([]byte(strings.Repeat(id+",", 30)))
+	}))
+	c.Add(ws)
+	var bad int32
+	var first atomic.Value
+	var wg sync.WaitGroup
+	for i := 0; i < g; i++ {
+		wg.Add(1)
+		go func(i int) {
+			defer wg.Done()
+			for k := 0; k < n; k++ {
+				id := fmt.Sprintf("%d-%d-%d", ci, i, k)
+				req := rt.Req{Method: "GET", Path: "/c/get", Hdr: map[string]string{"X-Id": id, "Accept-Encoding": []string{"gzip", "deflate"}[(i+k)%2]}}
+				o := rt.Run(c, entry, &req)
+				ce := o.Rec.Hdr().Get("Content-Encoding")
+				want := "churn-payload-" + id + "-" + strings.Repeat(id+",", 30)
+				got, err := decodeComplete(ce, o.Rec.Body.Bytes())
+				if o.Panicked || err != nil || string(got) != want {
+					atomic.AddInt32(&bad, 1)
+					first.Store(fmt.Sprintf("request %s (%s): decodes to %.50q (err %v, panic %q), own payload %.50q", id, ce, got, err, o.Panic, want))
+				}
+			}
+		}(i)
+	}
+	done := make(chan struct{})
+	go func() { wg.Wait(); close(done) }()
+	where := "churn:" + entry + ":" + provName
+	doc := map[string]interface{}{"provider": provName, "goroutines": g, "requests_each": n, "entry": entry, "kind": "framework-churn"}
+	if blocked, timedOut := mon.WaitQuiescent(done, 20*time.Second); timedOut {
+		if len(blocked) > 0 {
+			doc["blocked"] = blocked
+			ctx.Violation(ci, "c13:release-blocks:"+where, fmt.Sprintf("%d request(s) parked forever in %s", len(blocked), blocked[0].Frame), doc)
+		} else {
+			ctx.Inconclusive("framework churn did not finish and no blocked go-restful frame was found")
+		}
+		return
+	}
+	ctx.Eval(g * n)
+	ctx.Count("framework_churn_requests", g*n)
+	if atomic.LoadInt32(&bad) > 0 {
+		ctx.Violation(ci, "c13:payload-mixed:"+where, fmt.Sprintf("%d response(s) were not a complete encoding of their own payload; first: %v", bad, first.Load()), doc)
+	}
+	checkLedger(ctx, ci, l, where, doc)
+	ctx.Sig(fmt.Sprintf("framework-churn|%s|%s", provName, entry))
+}
+
 // secondClose: closing a response writer twice is an error, not a second release.
 func secondClose(ctx *core.Ctx, ci int, provName, coding string) {
 	l := mon.NewLedger(c13Provider(provName))
@@ -517,7 +648,7 @@ func secondClose(ctx *core.Ctx, ci int, provName, coding string) {
 
 func c13(ctx *core.Ctx) {
 	quietLogs()
-	ctx.Rule("providers {sync.Pool, bounded cache capacity 0/1/2/8, custom mutex free-list} behind an instrumenting provider (ledger + trip-wire + history). (A) direct storms: g in {2,4,8} goroutines acquire, use and close a writer, then release together through a spin barrier. (B) storms through Dispatch/ServeHTTP with in-flight in {1,2,capacity,capacity+1,16,64} requests all held inside the handler at once, modes {normal (release barrier inside the compressor flush), failing underlying writer, panicking handler with recovery, gzip request bodies via ReadEntity read in 7-byte slices, broken request bodies}. (C) second Close. Oracle: no object handed out while held, each acquired object released exactly once, no write through a released writer, every response/request body decodes to its own payload, nobody parked forever in Release/Close (goroutine state), per-object acquire/release history linearizable against a mutex (porcupine). Race detector on. Non-trivial = a storm with >= 2 holders; distinct by (kind, provider, holders, entry, mode, coding).")
+	ctx.Rule("providers {sync.Pool, bounded cache capacity 0/1/2/8, custom mutex free-list} behind an instrumenting provider (ledger + trip-wire + history). (A) direct storms: g in {2,4,8} goroutines acquire, use and close a writer, then release together through a spin barrier. (B) storms through Dispatch/ServeHTTP with in-flight in {1,2,capacity,capacity+1,16,64} requests all held inside the handler at once, modes {normal (release barrier inside the compressor flush), failing underlying writer, panicking handler with recovery, gzip request bodies via ReadEntity read in 7-byte slices, broken request bodies, handler hijacking the connection}; churn: goroutines acquire/use/release (directly and through Dispatch/ServeHTTP) back to back without barriers, so that acquires overlap releases. (C) second Close. Oracle: no object handed out while held, each acquired object released exactly once, no write through a released writer, every response/request body decodes to its own payload, nobody parked forever in Release/Close (goroutine state), per-object acquire/release history linearizable against a mutex (porcupine). Race detector on. Non-trivial = a storm with >= 2 holders; distinct by (kind, provider, holders, entry, mode, coding).")
 	ctx.Assume("the ledger adds after the inner acquire and removes before the inner release: it cannot false-alarm on provider-internal ordering")
 	defer restful.SetCompressorProvider(restful.NewSyncPoolCompessors())
 	direct := ctx.N(240, 20000)
@@ -538,7 +669,29 @@ func c13(ctx *core.Ctx) {
 			return
 		}
 	}
-	modes := []string{"normal", "failing-writer", "panic", "request-bodies", "broken-bodies"}
+	churnReps := ctx.N(1, 30)
+	for rep := 0; rep < churnReps; rep++ {
+		for pi, prov := range c13Providers {
+			ci++
+			if !ctx.Skip(ci) {
+				ctx.Case(ci, "direct churn provider="+prov)
+				directChurn(ctx, ci, prov, 12, ctx.N(150, 400))
+			}
+			ci++
+			if !ctx.Skip(ci) {
+				entry := rt.Dispatch
+				if (pi+rep)%2 == 1 {
+					entry = rt.ServeHTTP
+				}
+				ctx.Case(ci, "framework churn provider="+prov+" entry="+entry)
+				frameworkChurn(ctx, ci, prov, 12, ctx.N(60, 200), entry)
+			}
+			if ctx.Violations() > 20 {
+				return
+			}
+		}
+	}
+	modes := []string{"normal", "failing-writer", "panic", "request-bodies", "broken-bodies", "hijack"}
 	reps := ctx.N(1, 40)
 	for rep := 0; rep < reps; rep++ {
 		for _, prov := range c13Providers {
